@@ -43,6 +43,7 @@ class Gen:
     def __init__(self, seed, binary_safe=False):
         self.r = random.Random(seed)
         self.binary_safe = binary_safe   # restrict to what both builds support identically (RawCBOR etc. are fine)
+        self.opaque_el = []              # keys whose value is an array whose ELEMENTS are rendered by an external marshaler
         self.opaque = []                 # keys whose value is rendered by an external marshaler as a structured JSON value
 
     def bytes_(self):
@@ -152,8 +153,20 @@ class Gen:
         elif k == "IPPrefix":
             op.update(m="IPPrefix", v={"t": "ipnet", "ip": [192, 168, 0, 0], "mask": [255, 255, r.choice([0, 255]), 0]})
         elif k in ("AnErr", "Err"):
-            op.update(m=k, v={"t": "error", "s": b64(self.bytes_())})
+            op.update(m=k, v=dict({"t": "error", "s": b64(self.bytes_())}, **self.err_kind(kname, keyed)))
         return op
+
+    def err_kind(self, kname, keyed=True, elements=False):
+        """Extra members for an error TV: a quarter of the keyed error values are errors that are LogObjectMarshalers
+        (rendered as an object with 0-2 members by every error path: Err, AnErr, Errs, Fields error / []error).
+        Their value is one value to the builder discipline (opaque); the RFC 8259 automaton still sees every token."""
+        r = self.r
+        if not keyed or r.random() >= 0.25:
+            return {}
+        (self.opaque_el if elements else self.opaque).append(kname)
+        n = r.choice([0, 1, 1, 2])
+        self.errobj_n = getattr(self, "errobj_n", 0) + 1       # member names unique within the program
+        return {"ek": "obj", "f": [{"m": "Str", "k": b64("m%d_%d" % (self.errobj_n, i)), "v": self.tv_string()} for i in range(n)]}
 
     def fields_value(self, kname):
         """A typed value for a Fields entry (no errors: those are the ferr* classes)."""
@@ -271,10 +284,13 @@ class Gen:
             return [self.slice_op(kname, int(cls[5:]), builder)], need
         if cls in ("everrs0", "everrs2"):
             n = int(cls[-1])
-            return [{"m": "Errs", "k": K, "v": {"t": "[]error", "ss": [b64(self.bytes_()) if r.random() < 0.8 else None for _ in range(n)], "nil": n == 0 and r.random() < 0.5}}], need
+            return [{"m": "Errs", "k": K, "v": dict({"t": "[]error", "ss": [b64(self.bytes_()) if r.random() < 0.8 else None for _ in range(n)], "nil": n == 0 and r.random() < 0.5},
+                                                    **(self.err_kind(kname, elements=True) if n else {}))}], need
         if cls in ("ferrs0", "ferrs1", "ferrs2"):
             n = int(cls[-1])
             tv = {"t": "[]error", "ss": [b64(self.bytes_()) if r.random() < 0.8 else None for _ in range(n)], "nil": n == 0 and r.random() < 0.5}
+            if n:
+                tv.update(self.err_kind(kname, elements=True))
             return [{"m": "Fields", "map": r.random() < 0.5, "kv": [{"k": K, "v": tv}]}], need
         if cls in ("ferrstackNil", "ferrstackStr"):
             need = "nil" if cls.endswith("Nil") else "string"
@@ -298,6 +314,7 @@ class Gen:
         r = self.r
         needs = set()
         self.opaque = []
+        self.opaque_el = []
         names = {"lvl": "level", "msg": "message", "ctx": [], "ev": [], "hooks": []}
         stack_on = False
         ctx_ops, ev_ops = [], []
@@ -317,6 +334,7 @@ class Gen:
                 ops, need = self.op(cls, kname, builder)
                 if nasty:
                     self.opaque = [("?" if isinstance(o, bytes) else o) for o in self.opaque]
+                    self.opaque_el = [("?" if isinstance(o, bytes) else o) for o in self.opaque_el]
                     kname = "?"
                 if need:
                     needs.add(need)
@@ -359,7 +377,7 @@ class Gen:
         prog = {"id": pid, "set": st, "derive": derive, "level": 1 if (abs_prog["lvl"] or st.get("levelField") == "") else 6, "ev": ev_ops,
                 "fin": r.choice(["Msg", "Msgf", "MsgFunc"]) if abs_prog["msg"] else r.choice(["Send", "Msg"]),
                 "msg": b64(self.bytes_() or b"m") if abs_prog["msg"] else "",
-                "abs": {"p": abs_prog, "n": names}, "opaque": sorted(set(self.opaque))}
+                "abs": {"p": abs_prog, "n": names}, "opaque": sorted(set(self.opaque)), "opaqueel": sorted(set(self.opaque_el))}
         if abs_prog["msg"] and prog["msg"] == "":
             prog["msg"] = b64("m")
         prog["abs"]["level"] = prog["level"]
